@@ -178,7 +178,7 @@ pub fn gen_c09(ctx: &Ctx, rng: &mut Rng, out: &mut Vec<String>) {
     }
 }
 
-/// the six site kinds of C11 for a 2-population map (a,b in pop 0; c in pop 1) with target (2,2)
+/// the eight site kinds of C11 for a 2-population map (a,b in pop 0; c in pop 1) with target (2,2)
 fn kind_record(kind: usize, mem: bool) -> Vec<String> {
     let v: [&str; 4] = match kind {
         0 => ["1", "2", "0", "x"],          // complete on the selected samples (projectable, totals 4,2 -> Projected)
@@ -186,6 +186,8 @@ fn kind_record(kind: usize, mem: bool) -> Vec<String> {
         2 => ["x", "1", "1", "0"],          // multiallelic in one sample, exactly sufficient
         3 => ["m", "m", "1", "0"],          // insufficient in population 0
         4 => ["2", "2", "m", "0"],          // insufficient in population 1
+        6 => ["m", "x", "m", "0"],          // every selected sample uncalled (nothing is counted at all)
+        7 => ["x", "m", "x", "m"],          // every sample uncalled
         _ => ["0", "1", "2", "m"],          // complete, different counts
     };
     if mem { v.iter().map(|s| s.to_string()).collect() } else {
@@ -197,7 +199,7 @@ pub fn gen_c11(ctx: &Ctx, rng: &mut Rng, out: &mut Vec<String>) {
     let cols4 = "a,b,c,d";
     let sl = "s:a=P,b=P,c=Q";
     // every ordered pair (predecessor kind, successor kind), with and without projection
-    for p in 0..6 { for s in 0..6 {
+    for p in 0..8 { for s in 0..8 {
         for proj in ["N", "shape:3,3", "shape:5,3", "ind:1,0"] {
             let recs = vec![("1".to_string(), 1, kind_record(p, true)), ("1".to_string(), 2, kind_record(s, true))];
             out.push(format!("c11.mem\t{cols4}\t{sl}\t{proj}\t{}", records_str(&recs)));
@@ -207,7 +209,7 @@ pub fn gen_c11(ctx: &Ctx, rng: &mut Rng, out: &mut Vec<String>) {
     let nperm = if ctx.tier_thorough { 20 } else { 5 };
     for i in 0..nseq {
         let len = rng.range(2, 12) as usize;
-        let kinds: Vec<usize> = (0..len).map(|_| rng.below(6) as usize).collect();
+        let kinds: Vec<usize> = (0..len).map(|_| rng.below(8) as usize).collect();
         let proj = *rng.pick(&["N", "shape:3,3", "shape:5,3", "shape:4,2", "shape:1,1", "ind:2,1", "ind:1,1"]);
         let mk = |ks: &[usize], mem: bool| -> String { records_str(&ks.iter().enumerate().map(|(j, k)| ("1".to_string(), j + 1, kind_record(*k, mem))).collect::<Vec<_>>()) };
         out.push(format!("c11.mem\t{cols4}\t{sl}\t{proj}\t{}", mk(&kinds, true)));
@@ -250,7 +252,13 @@ pub fn gen_c10(ctx: &Ctx, rng: &mut Rng, out: &mut Vec<String>) {
                     let mut recs = base.clone();
                     let mut gts: Vec<String> = assign.iter().map(|_| "0/1".to_string()).collect();
                     let ins = match fault {
-                        0 => { gts[sel] = "1".into(); ("9".to_string(), 900 + pos, gts) }              // haploid in a selected column
+                        0 => {                                                                          // not diploid in a selected column …
+                            let sels: Vec<usize> = assign.iter().enumerate().filter(|(_, a)| a.is_some()).map(|(k, _)| k).collect();
+                            let bad = sels[(pos + i) % sels.len()];
+                            gts[bad] = if (pos + i) % 2 == 0 { "1".into() } else { "0/0/1".into() };
+                            // … standing before or after a selected sample that is missing / multiallelic at the same site
+                            if sels.len() > 1 && (pos + i) % 3 != 0 { let other = sels[(pos + i + 1) % sels.len()]; gts[other] = if pos % 2 == 0 { "./.".into() } else { "1/2".into() }; }
+                            ("9".to_string(), 900 + pos, gts) }
                         1 => { gts[sel] = "./.".into(); ("9".to_string(), 900 + pos, gts) }            // would be skipped
                         2 => ("9".to_string(), 900 + pos, vec!["!badpos".to_string()]),
                         _ => ("9".to_string(), 900 + pos, vec!["!trunc".to_string()]),
